@@ -61,6 +61,15 @@ CHECKS = {
         'enumerated in every run. Exploration: containment is witnessed by sampled boundary values, not proved.',
         'Regex excluded (documented as unchecked); acceptance = apply does not raise Type/Value/KeyError; Dict/Object extension compared on nested specs.',
         'DESIGN.md section 3 C04'),
+    'C07': (
+        'stateful PBT: generated trees + flag prefix + clone mode + post-clone mutation history; node-by-node comparison and non-interference oracle',
+        'Generated trees (typed/untyped classes, tuples, opaque leaves, pg.Ref to symbolic and plain targets, hyper placeholders, DNA, '
+        'partial objects) with sealed / accessor_writable / allow_partial flags set by generated prefix ops; clone(deep), clone(shallow), '
+        'copy.copy, copy.deepcopy and clone(override) are checked for equality, class, value-spec and flag fidelity node by node, '
+        'well-formedness of the clone (C01 walk), original untouched, identity-disjointness (Ref targets shared, leaves shared only by '
+        'shallow clones), and after every mutation of either side (full op surface, opaque-leaf mutation) the other side is unchanged. Exploration.',
+        'Snapshot oracle built on sym_items; mixed sealing (unsealed node under a sealed one) compared at the root only; allow_partial compared on the cloned value itself.',
+        'DESIGN.md section 3 C07'),
 }
 
 NOT_BUILT = 'check not built yet in this round (planned; see DESIGN.md section 3)'
